@@ -783,6 +783,78 @@ func (c *c44Ctx) familyState(seeds []c44Seed, envs []c44EnvImpl) {
 			}
 		}
 	})
+	// Disturbed predecessors: packet A is a structural-byte mutant (all 256 values of NextHdr, HdrLen, PathType, the address
+	// type/length byte and the first two bytes of the upper layer) of a spread of packet kinds - datagrams on which the Server
+	// gives up half way through decoding or answering - and packet B a well-formed datagram of every upper-layer kind.
+	var preds, succ []c44Seed
+	for _, s := range seeds {
+		for _, rest := range []string{"dst=ipv4 path=scion(2,3) ext=none", "dst=ipv6 path=empty ext=e2e", "dst=svc-CS path=onehop ext=hbh"} {
+			if !strings.HasSuffix(s.name, " "+rest) {
+				continue
+			}
+			for _, l4 := range []string{"udp:53", "echo-request", "traceroute-request", "echo-reply", "traceroute-reply",
+				"scmp-error-1[quote=udp-srcport-40001]", "scmp-error-4[quote=echo-request]"} {
+				if s.name == l4+" "+rest {
+					preds = append(preds, s)
+				}
+			}
+		}
+		if strings.HasSuffix(s.name, " dst=ipv4 path=scion(2,3) ext=none") {
+			succ = append(succ, s)
+		}
+	}
+	if !mc.Thorough() {
+		var few []c44Seed
+		for i, s := range succ {
+			if i%3 == 0 || strings.HasPrefix(s.name, "udp:53 ") {
+				few = append(few, s)
+			}
+		}
+		succ = few
+	}
+	c.r.Extra["state_disturbed_predecessor_seeds"] = len(preds)
+	c.r.Extra["state_disturbed_successors"] = len(succ)
+	spk := make([][]byte, len(succ))
+	for i := range succ {
+		spk[i] = succ[i].pkt.build()
+	}
+	mc.ParallelFor(len(preds), func(a int) {
+		t := &c44Tally{out: map[string]int64{}}
+		defer c.merge(t)
+		base := preds[a].pkt.build()
+		l4off := len(base) - len(c44Parse(base).l4)
+		for _, env := range es {
+			fresh := make([]c44Result, len(succ))
+			for b := range succ {
+				fresh[b] = c44Run(env, spk[b])
+			}
+			for _, off := range []int{4, 5, 8, 9, l4off, l4off + 1} {
+				for v := 0; v < 256; v++ {
+					if c.r.OutOfBudget() {
+						return
+					}
+					m := append([]byte(nil), base...)
+					m[off] = byte(v)
+					for b := range succ {
+						var res c44Result
+						res.panic = mc.Safely(func() {
+							srv := dispatcher.VerifNewServer(env.isDispatcher, env.svcm.impl)
+							srv.VerifProcessMsgNextHop(append([]byte(nil), m...), env.underlay, env.prevHop)
+							out, ad, err := srv.VerifProcessMsgNextHop(append([]byte(nil), spk[b]...), env.underlay, env.prevHop)
+							res.out, res.addr, res.err = append([]byte(nil), out...), ad, err
+						})
+						t.evals++
+						if res.String() != fresh[b].String() || !bytes.Equal(res.out, fresh[b].out) {
+							c.finding("result-depends-on-previous-packet", c44Example{Case: fmt.Sprintf("after [%s with byte %d := %#02x] then [%s]", preds[a].name, off, v, succ[b].name),
+								Env: env.name, Packet: fmt.Sprintf("%x then %x", m, spk[b]), Observed: res.String(), Expected: "same as on a fresh server: " + fresh[b].String()})
+						} else {
+							t.out["state:after-disturbed-predecessor-same-as-fresh"]++
+						}
+					}
+				}
+			}
+		}
+	})
 }
 
 func TestC44(t *testing.T) {
